@@ -134,6 +134,9 @@ func expectOutputsEng(name string, mode eng.Mode, in []*big.Int, fn gad.Fn, want
 	if res.Outcome != eng.Accept {
 		return caseResult{Viol: name + "/not-accepted", Desc: fmt.Sprintf("%s%v (%s flavour) with honest hints: %s", name, in, mode, fmtRes(res))}
 	}
+	if res.TolerantHints > 0 {
+		return caseResult{Viol: name + "/shipped-hint-failed", Desc: fmt.Sprintf("%s%v (%s flavour): %d shipped hint function(s) panicked or returned an error on honest operands (an honest prover using the repository's hints cannot produce this witness)", name, in, mode, res.TolerantHints)}
+	}
 	if len(out) != len(want) {
 		return caseResult{Viol: name + "/arity", Desc: fmt.Sprintf("%s returned %d values, reference %d", name, len(out), len(want))}
 	}
@@ -179,6 +182,9 @@ func expectOutputsMod(name string, mode eng.Mode, in []*big.Int, fn gad.Fn, want
 	}
 	if len(out) != len(want) {
 		return caseResult{Viol: name + "/arity", Desc: fmt.Sprintf("%s returned %d values, reference %d", name, len(out), len(want))}
+	}
+	if res.TolerantHints > 0 {
+		return caseResult{Viol: name + "/shipped-hint-failed", Desc: fmt.Sprintf("%s%v: %d shipped hint function(s) failed on honest operands", name, in, res.TolerantHints)}
 	}
 	for i := range want {
 		if new(big.Int).Mod(out[i], bigP).Cmp(want[i]) != 0 {
